@@ -151,9 +151,29 @@ def _r1_r2(ctx: Ctx, mod, meths: dict) -> None:
             raise AnchorError(f"{GO}:MortarProjections.{name} missing")
         q = f"MortarProjections.{name}"
         calls = [c for c in walk_local(fn) if isinstance(c, ast.Call) and u(c.func) == "self._construct_projection"]
+        via = None
+        if not calls:
+            # one level of indirection: a shared private helper that forwards its parameters to _construct_projection
+            for oc in [c for c in walk_local(fn) if isinstance(c, ast.Call) and isinstance(c.func, ast.Attribute)
+                       and u(c.func.value) == "self" and c.func.attr in meths and c.func.attr.startswith("_")]:
+                inner = [c for c in walk_local(meths[oc.func.attr]) if isinstance(c, ast.Call)
+                         and u(c.func) == "self._construct_projection"]
+                if len(inner) == 1:
+                    via = (oc, meths[oc.func.attr], inner[0])
+                    calls = [oc]
         if len(calls) != 1:
             raise Undecided(f"{GO}:{q}: expected one call to _construct_projection, found {len(calls)}")
-        a = call_args(calls[0], cp)
+        if via is None:
+            a = call_args(calls[0], cp)
+        else:
+            outer = call_args(via[0], via[1])
+            hp = [p_.arg for p_ in via[1].args.args]
+            a = {}
+            for k_, v_ in call_args(via[2], cp).items():
+                if isinstance(v_, ast.Name) and v_.id in hp:
+                    from .c26 import param_default
+                    v_ = outer.get(v_.id, param_default(via[1], v_.id))
+                a[k_] = v_
         lit, tm, ip = a.get("proj_func"), a.get("to_mortar"), a.get("is_primary")
         if not (isinstance(lit, ast.Constant) and isinstance(lit.value, str)):
             raise Undecided(f"{GO}:{q}: proj_func is not a string literal")
@@ -184,6 +204,8 @@ def _r1_r2(ctx: Ctx, mod, meths: dict) -> None:
                       construct=f"{name} [{flag}={val}] slots read {sorted(pe.reads)} written {sorted(pe.writes)}",
                       facts={"reads": sorted(pe.reads), "writes": sorted(pe.writes), "expected": expect})
         # what is stored is what was constructed
+        if via is not None:
+            continue
         res_names = {t.id for s in stmts_local(fn) if isinstance(s, ast.Assign) and s.value is calls[0]
                      for t in s.targets if isinstance(t, ast.Name)}
         for s in stmts_local(fn):
@@ -313,24 +335,60 @@ def _r3(ctx: Ctx, mod, meths: dict) -> None:
         raise Undecided(f"{GO}:{q}: `{P}` indexed by {sorted(sdvars)}")
     sdv = sdvars.pop()
     # (a) which subdomain of the pair
-    sel = [s for s in ast.walk(loop) if isinstance(s, ast.Assign) and isinstance(s.value, ast.Call)
-           and call_name(s.value) == "interface_to_subdomain_pair"]
-    if not sel:
+    sel_calls = [c for c in ast.walk(loop) if isinstance(c, ast.Call) and call_name(c) == "interface_to_subdomain_pair"]
+    if not sel_calls:
         raise AnchorError(f"{GO}:{q}: interface_to_subdomain_pair not consulted")
-    for s in sel:
-        if [u(a) for a in s.value.args] != [iv]:
-            raise Undecided(f"{GO}:{q}: pair looked up for `{u(s.value.args[0]) if s.value.args else ''}`")
+    for c in sel_calls:
+        if [u(a_) for a_ in c.args] != [iv]:
+            raise Undecided(f"{GO}:{q}: pair looked up for `{u(c.args[0]) if c.args else ''}`")
+    n_sel = 0
+    pair_names = set()
+    for s in [x for x in ast.walk(loop) if isinstance(x, ast.Assign) and x.value in sel_calls]:
         t = s.targets[0]
-        if not (isinstance(t, ast.Tuple) and len(t.elts) == 2):
-            raise Undecided(f"{GO}:{q}: pair not unpacked into two names")
-        pos = [i for i, el in enumerate(t.elts) if u(el) == sdv]
-        pol = guard_polarity(f, s, "is_primary")
-        if pol is None or len(pos) != 1:
-            raise Undecided(f"{GO}:{q}: cannot relate `{u(s)}` to is_primary")
-        ctx.check("R3", pos[0] == (0 if pol else 1), mod, q, s,
+        if isinstance(t, ast.Tuple) and len(t.elts) == 2:
+            pos = [i for i, el in enumerate(t.elts) if u(el) == sdv]
+            pol = guard_polarity(f, s, "is_primary")
+            if pol is None and len(pos) != 1:
+                # both names kept: the choice is made later (p, s = pair; sd = p if is_primary else s)
+                for i, el in enumerate(t.elts):
+                    if isinstance(el, ast.Name):
+                        pair_names.add((el.id, i))
+                continue
+            if pol is None or len(pos) != 1:
+                raise Undecided(f"{GO}:{q}: cannot relate `{u(s)}` to is_primary")
+            n_sel += 1
+            ctx.check("R3", pos[0] == (0 if pol else 1), mod, q, s,
+                      f"with is_primary={pol} the relevant subdomain is position {0 if pol else 1} of the interface's (primary, "
+                      f"secondary) pair; position {pos[0]} is used",
+                      construct=f"is_primary={pol}: {u(s)}", facts={"position": pos[0]})
+        elif isinstance(t, ast.Name):
+            pair_names.add((t.id, None))
+        else:
+            raise Undecided(f"{GO}:{q}: pair assigned to `{u(t)}`")
+    whole = {n_ for n_, i_ in pair_names if i_ is None}
+    single = {n_: i_ for n_, i_ in pair_names if i_ is not None}
+    for n in ast.walk(loop):
+        pos = None
+        if isinstance(n, ast.Subscript) and isinstance(n.slice, ast.Constant) and n.slice.value in (0, 1) and (
+                (isinstance(n.value, ast.Name) and n.value.id in whole) or n.value in sel_calls):
+            pos = n.slice.value
+        elif isinstance(n, ast.Name) and isinstance(n.ctx, ast.Load) and n.id in single:
+            pos = single[n.id]
+        if pos is None:
+            continue
+        st = f.stmt_of(n)
+        if not (isinstance(st, ast.Assign) and u(st.targets[0]) == sdv):
+            continue
+        pol = guard_polarity(f, n, "is_primary")
+        if pol is None:
+            raise Undecided(f"{GO}:{q}: `{u(n)}` chosen for `{sdv}` without reference to is_primary")
+        n_sel += 1
+        ctx.check("R3", pos == (0 if pol else 1), mod, q, n,
                   f"with is_primary={pol} the relevant subdomain is position {0 if pol else 1} of the interface's (primary, "
-                  f"secondary) pair; position {pos[0]} is used",
-                  construct=f"is_primary={pol}: {u(s)}", facts={"position": pos[0]})
+                  f"secondary) pair; position {pos} is used",
+                  construct=f"is_primary={pol}: {sdv} = pair[{pos}]", facts={"position": pos})
+    if n_sel < 2:
+        raise Undecided(f"{GO}:{q}: choice of the pair member by is_primary not found for both values")
     # (b) composition
     comps = []
     for n in ast.walk(loop):
@@ -357,7 +415,7 @@ def _r3(ctx: Ctx, mod, meths: dict) -> None:
     if len(comps) < 2:
         raise Undecided(f"{GO}:{q}: composition of interface projection and subdomain prolongation not found")
     for n, kinds in comps:
-        pol = guard_polarity(f, f.stmt_of(n), "to_mortar")
+        pol = guard_polarity(f, n, "to_mortar")
         if pol is None or "?" in kinds or "M?" in kinds:
             raise Undecided(f"{GO}:{q}: composition `{u(n)[:70]}` not classifiable")
         want = ["M", "PT"] if pol else ["P", "M"]
@@ -368,23 +426,37 @@ def _r3(ctx: Ctx, mod, meths: dict) -> None:
                   construct=f"to_mortar={pol}: {u(n)}", facts={"operands": kinds})
     # (c) stacking
     stack_seen = set()
+
+    def stack_shape(a: ast.expr) -> Optional[str]:
+        if isinstance(a, ast.ListComp) and isinstance(a.elt, ast.List) and len(a.elt.elts) == 1 and len(a.generators) == 1 \
+                and u(a.elt.elts[0]) == u(a.generators[0].target) and u(a.generators[0].iter) == L and not a.generators[0].ifs:
+            return "vertical"
+        if isinstance(a, ast.List) and len(a.elts) == 1 and u(a.elts[0]) == L:
+            return "horizontal"
+        return None
+
     for r in [s for s in stmts_local(fn) if isinstance(s, ast.Return) and isinstance(s.value, ast.Call)
               and call_name(s.value) in ("_bmat", "bmat") and s.value.args]:
         a = r.value.args[0]
-        if isinstance(a, ast.ListComp) and isinstance(a.elt, ast.List) and len(a.elt.elts) == 1 and len(a.generators) == 1 \
-                and u(a.elt.elts[0]) == u(a.generators[0].target) and u(a.generators[0].iter) == L and not a.generators[0].ifs:
-            shape = "vertical"
-        elif isinstance(a, ast.List) and len(a.elts) == 1 and u(a.elts[0]) == L:
-            shape = "horizontal"
+        if isinstance(a, ast.Name):
+            ra = f.resolve(a, r)
+            a = ra[0] if len(ra) == 1 else a
+        alts: list[tuple[ast.expr, Optional[bool]]] = []
+        if isinstance(a, ast.IfExp) and u(a.test) in ("to_mortar", "not to_mortar"):
+            neg = u(a.test) != "to_mortar"
+            alts = [(a.body, not neg), (a.orelse, neg)]
         else:
-            raise Undecided(f"{GO}:{q}: stacking `{u(a)}` not classifiable")
-        pol = guard_polarity(f, r, "to_mortar")
-        if pol is None:
-            raise Undecided(f"{GO}:{q}: stacking not selected by to_mortar")
-        stack_seen.add(pol)
-        ctx.check("R3", shape == ("vertical" if pol else "horizontal"), mod, q, r,
-                  f"to_mortar={pol}: per-interface blocks must be stacked {'vertically (one row block per interface)' if pol else 'horizontally (one column block per interface)'}",
-                  construct=f"to_mortar={pol}: {shape} stack", facts={"stack": shape})
+            alts = [(a, guard_polarity(f, r, "to_mortar"))]
+        for arm, pol in alts:
+            shape = stack_shape(arm)
+            if shape is None:
+                raise Undecided(f"{GO}:{q}: stacking `{u(arm)}` not classifiable")
+            if pol is None:
+                raise Undecided(f"{GO}:{q}: stacking not selected by to_mortar")
+            stack_seen.add(pol)
+            ctx.check("R3", shape == ("vertical" if pol else "horizontal"), mod, q, r,
+                      f"to_mortar={pol}: per-interface blocks must be stacked {'vertically (one row block per interface)' if pol else 'horizontally (one column block per interface)'}",
+                      construct=f"to_mortar={pol}: {shape} stack", facts={"stack": shape})
     if stack_seen != {True, False}:
         raise AnchorError(f"{GO}:{q}: stacking arms not found")
     # (g) empty blocks and sizes
@@ -470,20 +542,37 @@ def _r4(ctx: Ctx, mod) -> None:
             if len(params) != 1:
                 raise AnchorError(f"{GO}:{q}: signature changed")
             arg = params[0]
-            # (i) lazy construction
-            builds = [s for s in stmts_local(fn) if isinstance(s, ast.Assign) and isinstance(s.targets[0], ast.Attribute)
-                      and u(s.targets[0].value) == "self" and s.targets[0].attr.endswith("_projections")]
-            if len(builds) != 1:
-                raise Undecided(f"{GO}:{q}: expected one lazy construction of the per-grid maps")
-            b = builds[0]
+            # (i) construction of the per-grid maps: in this method, in a helper it calls, or eagerly in __init__
+            def builds_in(fd: ast.FunctionDef):
+                return [s_ for s_ in stmts_local(fd) if isinstance(s_, (ast.Assign, ast.AnnAssign)) and s_.value is not None
+                        and any(isinstance(t_, ast.Attribute) and u(t_.value) == "self" and t_.attr.endswith("_projections")
+                                for t_ in assigned_targets(s_))
+                        and not (isinstance(s_.value, ast.Constant) and s_.value.value is None)]
+
+            cands: list[tuple[ast.FunctionDef, ast.stmt]] = [(fn, b_) for b_ in builds_in(fn)]
+            if not cands:
+                for c_ in [c for c in walk_local(fn) if isinstance(c, ast.Call) and isinstance(c.func, ast.Attribute)
+                           and u(c.func.value) == "self" and c.func.attr in meths]:
+                    cands += [(meths[c_.func.attr], b_) for b_ in builds_in(meths[c_.func.attr])
+                              if any(isinstance(t_, ast.Attribute) and t_.attr == slot for t_ in assigned_targets(b_))]
+            if not cands:
+                cands = [(init, b_) for b_ in builds_in(init)
+                         if any(isinstance(t_, ast.Attribute) and t_.attr == slot for t_ in assigned_targets(b_))]
+            if len(cands) != 1:
+                raise Undecided(f"{GO}:{q}: expected one construction of the per-grid maps, found {len(cands)}")
+            owner, b = cands[0]
+            fo = f if owner is fn else Fn(owner, GO, f"SubdomainProjections.{owner.name}")
             v = b.value
-            guard_ok = any(isinstance(p, ast.If) and u(p.test) == f"self.{b.targets[0].attr} is None" and f.in_body(p, c)
-                           for p, c in f.enclosing(b, (ast.If,)))
-            ok = (b.targets[0].attr == slot and isinstance(v, ast.Call) and call_name(v) == builder
-                  and [u(a) for a in v.args] == ["self._all_subdomains", "self.dim"] and not v.keywords and guard_ok)
+            tgt = [t_.attr for t_ in assigned_targets(b) if isinstance(t_, ast.Attribute)][0]
+            in_none = [p for p, c in fo.enclosing(b, (ast.If,)) if fo.in_body(p, c) and " is None" in u(p.test)]
+            guard_ok = all(u(p.test) == f"self.{tgt} is None" for p in in_none) and (bool(in_none) or owner is init)
+            want_args = [iparams[0], iparams[1]] if owner is init else ["self._all_subdomains", "self.dim"]
+            alt_args = ["self._all_subdomains", "self.dim"]
+            ok = (tgt == slot and isinstance(v, ast.Call) and call_name(v) == builder
+                  and [u(a) for a in v.args] in (want_args, alt_args) and not v.keywords and guard_ok)
             ctx.check("R4", ok, mod, q, b,
-                      f"{name} must build self.{slot} = {builder}(self._all_subdomains, self.dim) when (and only when) that slot is None",
-                      construct=f"{name}: {u(b)}", facts={"guarded_by_own_slot": guard_ok})
+                      f"{name} must rely on self.{slot} = {builder}(<all subdomains>, <dim>), built eagerly or when (and only when) "
+                      f"that slot is None", construct=f"{name}: {u(b)}", facts={"guarded_by_own_slot": guard_ok, "in": owner.name})
             # (ii) assembly from the argument list
             bm = [c for c in walk_local(fn) if isinstance(c, ast.Call) and call_name(c) == "bmat" and c.args]
             if len(bm) != 1:
@@ -501,6 +590,10 @@ def _r4(ctx: Ctx, mod) -> None:
                 raise Undecided(f"{GO}:{q}: assembly `{u(a)[:70]}` not classifiable")
             gen = comp.generators[0]
             base, tr = _is_transposed(elt)
+            if isinstance(base, ast.Subscript) and isinstance(base.value, ast.Name):
+                rb = f.resolve(base.value, f.stmt_of(bm[0]))
+                if len(rb) == 1 and isinstance(rb[0], ast.Attribute):
+                    base = ast.Subscript(value=rb[0], slice=base.slice, ctx=ast.Load())
             if not (isinstance(base, ast.Subscript) and isinstance(base.value, ast.Attribute) and u(base.value.value) == "self"):
                 raise Undecided(f"{GO}:{q}: block `{u(elt)}` is not an entry of a stored per-grid map")
             order = _list_order(gen.iter, arg)
@@ -549,11 +642,18 @@ def _r5(ctx: Ctx, mod) -> None:
             raise AnchorError(f"{GO}:{name}: signature changed")
         grids, dim = params
         loops = [s for s in fn.body if isinstance(s, ast.For)]
-        if len(loops) != 1 or not isinstance(loops[0].target, ast.Name):
+        if len(loops) != 1:
             raise Undecided(f"{GO}:{name}: expected one top-level loop over the grids")
         loop = loops[0]
-        sd = loop.target.id
-        order = _list_order(loop.iter, grids)
+        lit = loop.iter
+        if isinstance(loop.target, ast.Tuple) and len(loop.target.elts) == 2 and isinstance(lit, ast.Call) \
+                and call_name(lit) == "enumerate" and len(lit.args) == 1 and isinstance(loop.target.elts[1], ast.Name):
+            sd, lit = loop.target.elts[1].id, lit.args[0]
+        elif isinstance(loop.target, ast.Name):
+            sd = loop.target.id
+        else:
+            raise Undecided(f"{GO}:{name}: loop target `{u(loop.target)}` not recognised")
+        order = _list_order(lit, grids)
         if order is None:
             raise Undecided(f"{GO}:{name}: loop iterates `{u(loop.iter)}`")
         ctx.check("R5", order, mod, name, loop.iter,
@@ -578,9 +678,11 @@ def _r5(ctx: Ctx, mod) -> None:
         if not (isinstance(shp, ast.Tuple) and len(shp.elts) == 2):
             raise Undecided(f"{GO}:{name}: block has no literal shape")
 
+        from ..core.astutil import inline_locals
+
         def inl(e):
-            r = f.resolve(e, st)
-            return r[0] if len(r) == 1 else e
+            # plain single-assignment temporaries are looked through (the running offset has two definitions and stays)
+            return inline_locals(fn, e, stop={sd, grids, dim})
 
         rows_e, sz_e, tot_e = inl(rows), inl(shp.elts[1]), inl(shp.elts[0])
         IND = rows.id if isinstance(rows, ast.Name) else None
